@@ -172,7 +172,56 @@ def node_and_service(F, R):
     field_order_last(R, F, 'iceoryx2::service::ServiceState', 'static_storage', why='removed last: it names all other resources')
 
 
+def accumulator_loops(F, R):
+    """Receiver: the loops that OR-accumulate per-channel facts (has data / has borrows) leave early only when every accumulated flag is
+    already true; otherwise a connection that still holds a borrowed chunk in a later channel is reported as unused and removed while a
+    live object still points into it."""
+    n = 0
+    for f in F.find_fns(r'^iceoryx2::port::details::receiver::Receiver::<.*>::\w+$'):
+        for accs, exits, ver, loop in lib.accumulator_loop_exits(f):
+            for (e, a), v in sorted(ver.items()):
+                n += 1
+                R.ob('LOOP', 'LOOP::%s::early-exit-only-when-%s-known' % (fnkey(f), f.local_name(a) or 'acc%d' % a), v, 'the early loop exit bb%d->bb%d is taken only when the accumulated flag `%s` is already true (otherwise later channels are not examined and the flag under-approximates)' % (e[0], e[1], f.local_name(a) or a), f.term_site(e[0]).where, f)
+    R.floor('early-exit/accumulator pairs in Receiver loops', n, 3)
+
+
+def _def_term(f, kind, site):
+    if kind == 'assign':
+        rv = site.node[2]
+        return sym_nstr(sym(f, rv[1])) if rv[0] == 'use' else None
+    return '%s(%s)' % (core.short(site.callee or '?'), ', '.join(sym_nstr(sym(f, a)) for a in site.args if not (a[0] in ('c', 'm') and False)))
+
+
+def fallback_differs(F, R):
+    """Service resources: `x = primary; if x.is_none() { x = fallback }` - the fallback is a different expression than the primary (F: the path hint
+    of a request-response resource falls back from the request storage to the RESPONSE storage; repeating the primary leaves the hint empty
+    and the last owner does not remove the service's type-definition directory)."""
+    n = 0
+    for f in F.find_fns(r'^<iceoryx2::service::resource::\w+::\w+<.*> as iceoryx2::service::resource::ServiceResource>::(open|create)$'):
+        for l, ds in f.defs.items():
+            if not isinstance(l, int) or len(ds) != 2 or not f.local_name(l):
+                continue
+            terms = [_def_term(f, k, s_) for k, s_ in ds]
+            if None in terms or any(t_.startswith('const:') for t_ in terms):
+                continue
+            # the second definition is guarded by an is_none()/is_some() test of the local itself
+            second = max(ds, key=lambda d_: (d_[1].b, 0))[1]
+            guarded = False
+            for (b, tgt) in lib.guard_switches(f, second):
+                c = sym_nstr(sym(f, f.blocks[b]['t'][1]))
+                if re.search(r'is_none\(|is_some\(', c):
+                    guarded = True
+            if not guarded:
+                continue
+            n += 1
+            strip = lambda t: re.sub(r'closure\{[^}]*\}', 'closure', t)
+            R.ob('FLOW', 'FLOW::%s::fallback-differs-from-primary' % fnkey(f), strip(terms[0]) != strip(terms[1]), 'primary `%s` ; fallback `%s`' % (terms[0][:110], terms[1][:110]), second.where, f)
+    R.floor('guarded fallback definitions in service resources', n, 2)
+
+
 def check(F, R, tier):
+    fallback_differs(F, R)
+    accumulator_loops(F, R)
     port_pairing(F, R)
     node_and_service(F, R)
     owned_dependencies(F, R)
